@@ -401,8 +401,8 @@ func (p *Provider) GetInstanceTypes(ctx context.Context, np *v1.NodePool) ([]*cl
 	} else {
 		its = p.Catalog
 	}
-	if t := TaskFrom(ctx); t != nil {
-		t.Notes["its"] = its
+	if t := TaskFrom(ctx); t != nil && np != nil {
+		t.Notes["its/"+np.Name] = its
 	}
 	return its, nil
 }
@@ -558,4 +558,26 @@ func NewInstanceType(name, arch string, capacity corev1.ResourceList, ofs cloudp
 			KubeReserved: corev1.ResourceList{corev1.ResourceCPU: resource.MustParse("100m"), corev1.ResourceMemory: resource.MustParse("100Mi")},
 		},
 	}
+}
+
+// FlipOffering replaces the instance type by a NEW object whose offering i has the opposite
+// availability. InstanceType caches its available offerings on first use, so a provider must hand
+// out fresh objects when availability changes; callers that hold the old slice keep a consistent view.
+func (p *Provider) FlipOffering(typeIdx, ofIdx int) (*cloudprovider.InstanceType, *cloudprovider.Offering) {
+	old := p.Catalog[typeIdx]
+	var ofs cloudprovider.Offerings
+	for i, o := range old.Offerings {
+		c := &cloudprovider.Offering{Requirements: o.Requirements, Price: o.Price, Available: o.Available, ReservationCapacity: o.ReservationCapacity}
+		if i == ofIdx {
+			c.Available = !c.Available
+		}
+		ofs = append(ofs, c)
+	}
+	arch := old.Requirements.Get(corev1.LabelArchStable).Any()
+	nit := NewInstanceType(old.Name, arch, old.Capacity, ofs)
+	// keep the type's own zone / capacity-type requirement as the full set of its offerings (not only available ones)
+	cat := append([]*cloudprovider.InstanceType(nil), p.Catalog...)
+	cat[typeIdx] = nit
+	p.Catalog = cat
+	return nit, ofs[ofIdx]
 }
